@@ -48,13 +48,13 @@ type volStub struct {
 	mu        sync.Mutex
 	listeners map[string]*bufconn.Listener
 	servers   []*grpc.Server
-	hosts     []string                   // volume server addresses the stub master announces (replica locations of every volume)
-	behav     map[string][]string        // file id -> per host: "ok" (default), "404", "500", "down"
-	served    map[string]int             // "<behaviour>" -> number of HTTP requests answered that way
-	lookups   int                        // LookupVolume requests the real filer gRPC server answered
-	deleted   []string          // file ids named by BatchDelete requests since the last take()
-	requests  int               // BatchDelete requests seen
-	blobs     map[string][]byte // manifest chunk contents by file id
+	hosts     []string            // volume server addresses the stub master announces (replica locations of every volume)
+	behav     map[string][]string // file id -> per host: "ok" (default), "404", "500", "down"
+	served    map[string]int      // "<behaviour>" -> number of HTTP requests answered that way
+	lookups   int                 // LookupVolume requests the real filer gRPC server answered
+	deleted   []string            // file ids named by BatchDelete requests since the last take()
+	requests  int                 // BatchDelete requests seen
+	blobs     map[string][]byte   // manifest chunk contents by file id
 	failNext  bool
 	master_pb.UnimplementedSeaweedServer
 	volume_server_pb.UnimplementedVolumeServerServer
@@ -241,15 +241,15 @@ func (s *sess) afterOpen() {
 // ---------------------------------------------------------------- the C20 oracle
 
 type gcState struct {
-	ever   map[string]int // file id -> step at which its deletion was first scheduled / requested
-	op     []string       // scheduled during the current operation
-	loop   bool           // the filer's own loopProcessingDeletion drains the queue (else the harness does)
-	prev   map[string]string // referenced file id -> one referencing path, as of the previous observation
-	taints []string
-	requested bool
-	prevLinked  map[string]bool // referenced file id -> it was referenced through a hard-linked name
-	renamedLink map[string]bool // paths that a rename of a hard-linked name left behind as plain copies
-	excused     map[string]bool // file ids that a FAILED (faulted) operation left referenced by two entries
+	ever         map[string]int    // file id -> step at which its deletion was first scheduled / requested
+	op           []string          // scheduled during the current operation
+	loop         bool              // the filer's own loopProcessingDeletion drains the queue (else the harness does)
+	prev         map[string]string // referenced file id -> one referencing path, as of the previous observation
+	taints       []string
+	requested    bool
+	prevLinked   map[string]bool // referenced file id -> it was referenced through a hard-linked name
+	renamedLink  map[string]bool // paths that a rename of a hard-linked name left behind as plain copies
+	excused      map[string]bool // file ids that a FAILED (faulted) operation left referenced by two entries
 	renameShared map[string]bool // file ids of those plain copies (shared with the link group they came from)
 }
 
@@ -453,7 +453,7 @@ func (s *sess) checkGCObs(o *observation, requested bool, faulted bool) {
 }
 
 func (s *sess) checkGC(before, after *model, ok bool) {}
-func (s *sess) gcResync()                            {}
+func (s *sess) gcResync()                             {}
 func (s *sess) noteDeleteRequest(before, after *model, p string, data bool) {
 	if s.gc != nil {
 		s.gc.requested = data
@@ -494,4 +494,3 @@ func (s *sess) doAppend(st *simkit.Step) {
 	_ = after
 	s.settle(mustOK, "appended", err, run, before, before)
 }
-
